@@ -75,6 +75,7 @@ type Ctx struct {
 	replayOnly  string
 	child       bool
 	childViol   []shardViolation
+	raceJudge   func(rr raceReport) // optional per-property policy for race reports from children
 }
 
 func newCtx(prop, tier string, seed uint64) *Ctx {
